@@ -272,6 +272,12 @@ func (fr *Frame) execInstr(ins ssa.Instruction) {
 			fr.locs[ins] = loc
 		}
 		fr.unescaped[ref.S] = true
+		if n, ok := types.Unalias(pt).(*types.Named); ok && n.Obj().Pkg() != nil && n.Obj().Pkg().Path() == "sync" && (n.Obj().Name() == "Mutex" || n.Obj().Name() == "RWMutex") {
+			// a mutex that has just been created is not held by anybody
+			for _, h := range []string{"ghost_LockW", "ghost_LockR"} {
+				fr.vc.assume(tNot(tSelect(fr.cur.Get(h, arraySort(SInt, SBool)), ref)))
+			}
+		}
 	case *ssa.FieldAddr:
 		st := derefType(ins.X.Type())
 		base := fr.objBase(ins.X)
